@@ -106,10 +106,7 @@ var subRaw = ev.Register("raw-exchanges",
 		rw.Write(req.Bytes())
 		// half-close: the client has nothing more to send, so an announced but incomplete body ends in EOF
 		// at the proxy instead of keeping the handler waiting for bytes that will never come
-		switch x := rw.(type) {
-		case *tls.Conn:
-			x.CloseWrite()
-		case *net.TCPConn:
+		if x, ok := rw.(interface{ CloseWrite() error }); ok {
 			x.CloseWrite()
 		}
 		br := bufio.NewReader(rw)
